@@ -7,6 +7,47 @@ CHECKS = {
    technique="deterministic simulation (fault-free configuration): seeded multi-user worlds, honest routing, seeded interleavings, in-memory vs codec delivery; Model A + postconditions as oracle",
    text="Seeded simulation of honest registration+login worlds over all 44 suite instantiations (20 OPRF x KE combinations with SimKsf and with the shipped Identity KSF, 4 with Argon2), production build (cfg(test) off): every step must succeed, keys agree, export key and server public key equal registration's. Sampling over parameter classes with a covering schedule; not exhaustive.",
    note="trusted: curve crates, sha2, serde codecs; the harness' adapter and Model A; inputs stay within the 65535-byte limit (oversize is C12)"),
+
+ "C02": dict(cat="exploration", ref="DESIGN.md section 3 C02",
+   technique="deterministic simulation: seeded worlds with near-miss password families at login start/finish/both, cross-fed finalizations; Model A (symbolic) as oracle",
+   text="Seeded worlds per suite: one registration, one honest login, then a near-miss family of wrong passwords (bit flips, prefixes/extensions, case, whitespace, NUL twins, empty, length-prefix shapes, 65535-byte last-byte twins) applied at start only / finish only / both; the client must return exactly InvalidLoginError and every finalization that exists (plus zero/random) must fail on that server state.",
+   note="password pairs are sampled, each pair is deterministic; error kind demanded only within the 65535-byte limit"),
+ "C03": dict(cat="fault_enumeration", ref="DESIGN.md section 3 C03",
+   technique="deterministic simulation with enumerated message corruption: every single-bit/single-byte substitution of the genuine finalization, XOR-cancelling pairs, transpositions, constants, random and cross-session finalizations delivered to every pending server state; Model A as oracle",
+   text="For every pending server state of a seeded world (two sessions of one user, another user, wrong-password, fake record, abandoned) the complete family of 8*Nh bit flips and 255*Nh byte substitutions of the genuine finalization is delivered, plus structured forgeries and every other session's finalization; only the matching one may succeed and must return the client's key.",
+   note="the substitution family is exhaustive per state; states/worlds are seeded samples"),
+ "C04": dict(cat="fault_enumeration", ref="DESIGN.md section 3 C04",
+   technique="deterministic simulation with enumerated message corruption of the credential response at every offset, field splices from other sessions/users/servers/fake records, re-randomised fields, reflection; Model A as oracle",
+   text="For sampled honest logins every offset of the credential response is substituted (quick: 8 bit flips + 1 multi-bit value; thorough: all 255 values), every field and field pair is spliced from five kinds of donor responses, fields are re-randomised/zeroed/rotated, XOR-cancelling pairs and transpositions are applied, the request's own blinded element is reflected; the client must reject all of them and accept the genuine response delivered last.",
+   note="offset x value exhaustive only in the thorough tier; logins sampled; aliases (none after the C10 fixes) would be skipped and counted"),
+ "C05": dict(cat="exploration", ref="DESIGN.md section 3 C05",
+   technique="deterministic simulation: seeded parameter triples (registration / server login / client login) incl. boundary-shifted splits and crafted length-prefix collisions; Model A computes effective identities and decides accept/reject",
+   text="Seeded worlds over identity/context/credential-id triples: boundary-shifted splits of one concatenation, explicit-default spellings, empty vs absent, one-sided identities, 255/256/65535 lengths, twins that would collide under a 1-byte or missing length prefix, and 20 credential-id pairs (prefix, whitespace/NUL/case twins, long tails). Agreement must succeed, any disagreement must fail at the client.",
+   note="sampled; split positions sampled per world"),
+ "C06": dict(cat="exploration", ref="DESIGN.md section 3 C06",
+   technique="deterministic simulation with a seam fault: server static key swapped under an unchanged OPRF seed (stolen password file served elsewhere), direct and SimHsm keys; Model A + reported-key postconditions",
+   text="A record registered at S is served by S' built through the public decoder from seed(S) and another server's static key, and by an unrelated server; the client must refuse; registration and every successful login must report exactly S's public key.",
+   note="sampled worlds; ~900 foreign-key logins per quick run"),
+ "C07": dict(cat="exploration", ref="DESIGN.md section 3 C07",
+   technique="deterministic simulation of an adversarial network: every routing of requests/responses/finalizations inside a bounded population, executed in seeded random topological orders with shared per-party RNGs; Model A, key agreement/distinctness, schedule-independence (two interleavings compared) and bounded liveness after faults stop",
+   text="Per world 50 server sessions x 204 client finishes x all finalization deliveries (replay from an earlier day, cross-session, cross-user, wrong password, no record, two credential ids); acceptance only along matched conversations, equal keys inside a session, pairwise distinct keys across sessions, identical per-session outputs under a second interleaving, and an honest login per user completes in four steps afterwards.",
+   note="routing exhaustive inside the population (quick samples 1/4 of client finishes on P-384/P-521 groups); populations, passwords, tapes, orders seeded"),
+ "C08": dict(cat="exploration", ref="DESIGN.md section 3 C08",
+   technique="deterministic simulation of histories interleaving fake (no record) and real logins; structural/equality/non-repetition oracles over the recorded history, candidate-key unmasking with harness HKDF, Model A for client/server outcomes",
+   text="Fake responses have the real length and decode; the evaluation element is equal with and without record for equal (setup, credential id, request); no other field ever repeats across the history; the fake response does not unmask under any key visible outside the call; the client reports InvalidLoginError; no finalization completes a fake server state.",
+   note="unpredictability is tested as non-repetition / tape dependence only"),
+ "C10": dict(cat="fault_enumeration", ref="DESIGN.md section 3 C10",
+   technique="fault enumeration on stored/wire bytes: truncation/extension at every length, every leading-byte value and substitutions at every offset of every element/scalar field, non-reduced scalars, on the 11 native decoders x 20 suites; oracle decode-Ok implies canonical re-encoding",
+   text="Starting from valid encodings harvested from a seeded simulated run, each decoder is fed the complete families of wrong lengths and field corruptions; whatever decodes must re-encode to the input bytes and have the suite's fixed length.",
+   note="families complete per harvested encoding; encodings are seeded samples; found and fixed F1/F2 (see known_findings.json)"),
+ "C11": dict(cat="fault_enumeration", ref="DESIGN.md section 3 C11",
+   technique="fault enumeration: an independently generated (Python big-integer) catalogue of invalid group elements/scalars planted in every element/scalar field of every message/state, decoded natively and through bincode and JSON; oracle decode returns Err",
+   text="Identity, off-curve, out-of-range, bad-tag, non-canonical/negative/non-square ristretto, small-order Curve25519 (canonical, +p, top-bit) and zero/out-of-range/unclamped scalars x every field x 3 codecs x 20 suites; every decode must fail.",
+   note="catalogue x fields exhaustive; found and fixed F3 (see known_findings.json)"),
+ "C16": dict(cat="exploration", ref="DESIGN.md section 3 C16",
+   technique="deterministic simulation of multi-user histories (re-registrations on shared tapes, repeated logins, two servers) with a secret-substring monitor over every byte string that entered the network or a store; Model A names the export key each login must return",
+   text="Every successful login returns the registration's export key; export keys of distinct registrations (same tape, one input varied: password, user id incl. long/whitespace twins, server) pairwise differ; no 16-byte window of any export key, session key or password occurs in any message or password file in native, bincode or JSON form.",
+   note="sampled histories; passwords are random >=16 bytes so the substring monitor is meaningful"),
 }
 
 NOT_APPLICABLE = {
